@@ -111,3 +111,17 @@ Theorem C17_process_line_from_source : forall line,
   option_map entry_pair (gen_process_line line) = Some (process_line line).
 Proof. exact process_line_from_source. Qed.
 Print Assumptions C17_process_line_from_source.
+
+(* ---------- the regular-expression primitive (group R; statements and their reading in Props/C06.v, C06_regex_…) ----------
+   What a handler reads out of a failed-login line is the capture of THE leftmost-first match (unique; no other parse of
+   the line starts earlier or has a longer earlier greedy field), and every capture is a verbatim sub-range of the
+   line: client-chosen text can move a field boundary only to where another parse of the whole pattern exists and
+   is preferred by that fixed order - which the C17 theorems above exclude form by form. *)
+From AM Require Import Model.RegexSpec Proofs.RegexSpecLemmas.
+Theorem C17_regex_capture_of_best_match : forall its line r,
+  find its line = Some r ->
+  (exists ls pcs, Best its line (m_start r) ls (m_end r) pcs /\ m_caps r = rev (str_caps line pcs)) /\
+  (forall g v, In (g, v) (m_caps r) ->
+     exists a b, m_start r <= a /\ a <= b /\ b <= m_end r /\ m_end r <= length line /\ v = sub line a b).
+Proof. exact capture_of_best_match. Qed.
+Print Assumptions C17_regex_capture_of_best_match.
